@@ -29,6 +29,16 @@ CLAIMED = {
    text="Every device of the table x every instruction form x lowest/highest legal operands (thorough + 64 random tuples): a form forbidden by a feature flag of the device must fail; every other form must assemble to the no-device reference encoding (one-word lds/sts on reduced cores). Complete for the stated grid.",
    note="Flag→forms map transcribed from the DisabledOptions doc comments; flags are read from the DEVICES table at run time, as the statement prescribes.",
    design="§6 C13"),
+ "C05": dict(
+   technique="reference-evaluator monitor over generated and enumerated expressions (runtime execution, i128 oracle, observation through emitted .dq bytes)",
+   text="Evaluates expressions on the real assembler through `.dq <expr>` and compares with an i128 reference evaluator: random trees over all 18 binary / 3 unary operators, 8 functions, literals in every spelling, .equ/.set/label/pc symbols, rendered with only the parentheses the documented precedence table requires; the complete operator x boundary-operand grid; every ordered operator pair in both association shapes. Failing cases are shrunk to the smallest failing sub-expression on the real code.",
+   note="Trusted base: refmodel/expr.rs. Tolerated where the statement is silent: `<<`/exp2 leaving i64 or counts >= 64 may fail or give the low 64 bits; `>>` of negatives arithmetic or logical; i64::MIN % -1 may fail or be 0.",
+   design="§6 C05"),
+ "C07": dict(
+   technique="independent-reader monitor over enumerated image lengths (runtime execution of the HEX writers, strict Intel HEX decoder oracle)",
+   text="Calls write_code_hex/write_eeprom_hex on images of every length 0..600 and every length within ±20 of each 64 KiB multiple up to the largest flash in the device table (thorough: more lengths up to 8 MiB and the full build_str→writer pipeline), with position-dependent contents, and decodes each file with a strict independent reader: only well-formed records, valid checksums, one final EOF, every image byte exactly once at its address, none elsewhere.",
+   note="Trusted base: refmodel/ihex.rs (self-tested on hand-made good and bad files).",
+   design="§6 C07"),
 }
 
 PENDING_REASON = "check not built yet in this round (work in progress; design in DESIGN.md §6)"
